@@ -196,6 +196,7 @@ type MAuction struct {
 	MatchedLenHist  []int64
 	Proceeds        *big.Int
 	DustTop         bool // at settlement the highest price level had zero demand at its own price while a lower level qualified
+	everFlagged     map[uint64]bool
 	AmbiguousCap    bool // a capped bidder has several bids at qualifying prices: matched count / flags depend on processing order
 }
 
@@ -873,6 +874,7 @@ type MatchOutcome struct {
 	Flagged    map[uint64]bool
 	Total      *big.Int
 	Ambiguous  bool
+	CapCut     bool // probe: an allow-list cap cut a bid's quantity
 	DustTop    bool // probe: highest price level has zero demand at its own price while a lower one qualifies
 }
 
@@ -981,6 +983,7 @@ func (m *Model) Match(a *MAuction) MatchOutcome {
 		mt := q
 		if mt.Cmp(remCap[b.Bidder]) > 0 {
 			mt = new(big.Int).Set(remCap[b.Bidder])
+			out.CapCut = true
 		}
 		if mt.Sign() > 0 {
 			remCap[b.Bidder].Sub(remCap[b.Bidder], mt)
@@ -1011,6 +1014,22 @@ func (m *Model) closeBatch(a *MAuction, fx *BlockEffects, w *BlockWitness) {
 	}
 	if mo.DustTop {
 		a.DustTop = true
+		m.Relax["probe:dust_bid_on_top"]++
+	}
+	if mo.CapCut {
+		m.Relax["probe:cap_cut_a_bid"]++
+	}
+	if a.everFlagged == nil {
+		a.everFlagged = map[uint64]bool{}
+	}
+	for id := range a.everFlagged {
+		if !mo.Flagged[id] {
+			m.Relax["probe:provisional_winner_later_lost"]++
+			break
+		}
+	}
+	for id := range mo.Flagged {
+		a.everFlagged[id] = true
 	}
 	final := uint32(len(a.EndTimes)) >= a.MaxExtRound+1
 	if !final {
@@ -1086,6 +1105,12 @@ func (m *Model) Clone() *Model {
 		na.Allowed = map[string]*big.Int{}
 		for k, v := range a.Allowed {
 			na.Allowed[k] = v
+		}
+		if a.everFlagged != nil {
+			na.everFlagged = map[uint64]bool{}
+			for k, v := range a.everFlagged {
+				na.everFlagged[k] = v
+			}
 		}
 		na.Bids = nil
 		for _, b := range a.Bids {
